@@ -92,6 +92,29 @@ OPTIONS = [None, None, {}, {"collapse": 2}, {"collapse": 3}, {"force": True},
            {"index": 0}, {"allow_call": True}, {"disable_loop_check": True}]
 
 
+# options that only make sense for particular classes, with several values
+# (an index into this list travels in the operation as "copt")
+CLASS_OPTIONS = {
+    "LoopTiling2DTrans": [{"tilesize": 2}, {"tilesize": 4}, {"tilesize": 8},
+                          {"tilesize": 16}, {"tilesize": 3}],
+    "ChunkLoopTrans": [{"chunksize": 2}, {"chunksize": 4}, {"chunksize": 8},
+                       {"chunksize": 16}, {"chunksize": 3}],
+    "OMPLoopTrans": [{"collapse": 2}, {"collapse": 3}, {"collapse": 1}],
+    "OMPParallelLoopTrans": [{"collapse": 2}, {"collapse": 3}],
+    "OMPTaskloopTrans": [{"nogroup": True}, {"collapse": 2}],
+    "OMPTaskTrans": [{"collapse": 2}],
+    "ACCLoopTrans": [{"collapse": 2}, {"sequential": True},
+                     {"gang": True}, {"vector": True},
+                     {"sequential": True, "gang": True},
+                     {"independent": False, "collapse": 2}],
+    "ACCKernelsTrans": [{"default_present": True},
+                        {"default_present": False}],
+    "MoveTrans": [{"position": "before"}, {"position": "after"}],
+    "InlineTrans": [{"force": False}],
+    "HoistLoopBoundExprTrans": [{}],
+}
+
+
 def all_classes():
     import inspect
     import psyclone.psyir.transformations as T1
@@ -112,7 +135,8 @@ def gen_op(rng, names, weights=None):
     return {"cls": name, "ctor": rng.randrange(8),
             "t": rng.randrange(1 << 20), "t2": rng.randrange(1 << 20),
             "pref": rng.random() < 0.85, "span": pick(rng, [1, 1, 1, 2, 3]),
-            "opt": rng.randrange(len(OPTIONS) * 2)}
+            "opt": rng.randrange(len(OPTIONS) * 2),
+            "copt": rng.randrange(16) if rng.random() < 0.5 else None}
 
 
 def resolve_target(root, op):
@@ -139,6 +163,9 @@ def apply_op(root, op, classes, observer=None):
     node, conv, nodes = resolve_target(root, op)
     opts = OPTIONS[op["opt"] % len(OPTIONS)] if op["opt"] < len(OPTIONS) \
         else None
+    if op.get("copt") is not None and op["cls"] in CLASS_OPTIONS:
+        copts = CLASS_OPTIONS[op["cls"]]
+        opts = copts[op["copt"] % len(copts)]
     desc = {"cls": op["cls"], "ctor": kwargs, "target": type(node).__name__,
             "opts": None if opts is None else sorted(opts)}
     try:
